@@ -186,3 +186,23 @@ Proof.
   destruct (w2x_encode tbl o t) as [out|e] eqn:Ee; [|cbn [r_len]; lia].
   cbn [r_len]. rewrite Nat2N.id. exact (conv_size tbl o (b0 :: r0) t out Et Ee).
 Qed.
+
+(* ---- the bound over N (binary numbers: it can be evaluated) ---- *)
+Definition PhiN (K C x : N) : N := 24 * (x * (2 * x + 2 * K + 122)) + C * (2 * x).
+Definition CnN (tbl : list lang) (indent : N) : N :=
+  2 * (255 * (u8 indent + 1)) + 2 * N.of_nat (Kmax tbl) + N.of_nat (KnsT tbl) + 12.
+Definition bound_N (tbl : list lang) (indent n : N) : N :=
+  let K := N.of_nat (Kmax tbl) in
+  N.of_nat (Khdr tbl) + PhiN K (CnN tbl indent) n + PhiN K (CnN tbl indent) (n * (2 * n + 2 * K + 122)).
+
+Lemma size_bound_N tbl indent n : N.of_nat (size_bound tbl indent n) = bound_N tbl indent (N.of_nat n).
+Proof.
+  unfold size_bound, bound_N, PhiN, CnN, Phi, Cn. cbv zeta.
+  generalize (Kmax tbl) (KnsT tbl) (Khdr tbl) (u8 indent). intros k s h u. lia.
+Qed.
+
+Theorem model_size_N tbl o doc :
+  r_len (wbxml2xml_model tbl o doc) <= bound_N tbl (wo_indent o) (N.of_nat (length doc)).
+Proof.
+  rewrite <- size_bound_N. pose proof (model_size tbl o doc) as H. lia.
+Qed.
